@@ -230,6 +230,8 @@ def run(ctx: Ctx) -> None:
     memo.rule_falsy_zero(ctx, [SRC, STATE])
     loops.rule_index_space(ctx, [SRC, STATE, "graphiq/backends/density_matrix/functions.py"])
     memo.rule_arg_names(ctx, [SRC, STATE])
+    memo.rule_fixed_width(ctx, [SRC, STATE])
+    memo.rule_paste_incomplete(ctx, [SRC, STATE])
     numeric.rule_gf2round(ctx, armed=[(SRC, "_graph_finder")],
                           advisory=[(SRC, "_phase_correction"), (LCE, "_solution_basis_finder"), (LCE, "_vec_solution_finder")])
     ctx.floor("flow.missing-return", 25)
